@@ -1294,7 +1294,9 @@ func (fx *Fx) slice(st *State, x *ssa.Slice) {
 func (fx *Fx) makeSlice(st *State, x *ssa.MakeSlice) {
 	ln := fx.idx64(fx.get(st, x.Len))
 	cp := fx.idx64(fx.get(st, x.Cap))
-	g := And(BVOp("bvsle", BVConst(0, 64), ln), BVOp("bvsle", ln, cp), BVOp("bvule", cp, BVConst(1<<48, 64)))
+	// slices handed in by callers are assumed to span at most 2^48 elements; allocations may exceed that by a
+	// bounded amount before the runtime refuses (the limit itself is platform specific: 2^56 is used here)
+	g := And(BVOp("bvsle", BVConst(0, 64), ln), BVOp("bvsle", ln, cp), BVOp("bvule", cp, BVConst(1<<56, 64)))
 	fx.oblige(st, "bounds", "make:"+fx.site(x, x.Pos()), g, x.Pos())
 	fx.assume(st, g)
 	lo := st.NewLocal(true, "make")
